@@ -1134,7 +1134,738 @@ Proof.
     assert (Z0 : forall l : list (string * Z), List.filter (fun ik => memb (fst ik) []) l = []).
     { induction l as [|x l IHl]; [reflexivity | exact IHl]. }
     generalize (sortZ m). intros L0. induction L0 as [|e L0 IH0]; [reflexivity|]. cbn [flat_map]. rewrite <- IH0, Z0. reflexivity.
-  - destruct Inv as [ND NE]. rewrite (obs_collect11_written _ _ _ _ _ I NE ND []); [|reflexivity].
-    cbn [app option_map]. f_equal. unfold flat_obs. rewrite map_flat_map. apply flat_map_ext. intros e.
+  - destruct Inv as [ND NE].
+    pose proof (obs_collect11_written imgs_of ty i0 ims (sortZ m) I NE ND [] (fun _ _ => eq_refl)) as Q.
+    cbn [app] in Q. unfold obs_key in *. rewrite Q. cbn [option_map]. f_equal. unfold flat_obs. rewrite map_flat_map. apply flat_map_ext. intros e.
     unfold obs_sel. destruct (List.filter (fun ik => memb (fst ik) (i0 :: ims)) (snd e)); reflexivity.
 Qed.
+
+(* ================================================================== 8. the steps of the in-place route *)
+Lemma set_get_folder k t : set_folder k (get_folder k t) t = t.
+Proof. destruct t, k; reflexivity. Qed.
+Lemma get_set_folder k F t : get_folder k (set_folder k F t) = F.
+Proof. destruct k; reflexivity. Qed.
+Lemma get_set_folder_other k k' F t : k <> k' -> get_folder k' (set_folder k F t) = get_folder k' t.
+Proof. destruct k, k'; try reflexivity; intros N; contradiction. Qed.
+
+Definition tidy_folder (k : fkind) (a : args) (kt : option string) (imgs : option (list string)) (oF : option folder) : Prop :=
+  match oF with
+  | None => True
+  | Some F =>
+    no_descriptor_below k F /\
+    match lookup (descname k) F with
+    | Some (Txt segs) =>
+      version_ok_lenient (version_of_file segs) = true /\
+      forall d ty, read_old segs = inl d -> resolve_type (explicit k a) (d_name d) = Some ty ->
+                   good_row k d (str_or_empty kt) a /\ has_char "/" ty = false /\
+                   (forall im, imgs = Some im -> images_ok (fext k) im)
+    | _ => True
+    end
+  end.
+
+Lemma ftypes_none k F : no_descriptor_below k F -> ftypes k F = [].
+Proof.
+  intros ND. rewrite ftypes_eq. assert (E : flat_map (tsel k) F = []); [|rewrite E; reflexivity].
+  assert (H : forall G : folder, (forall p, In p (keys G) -> In p (keys F)) -> flat_map (tsel k) G = []).
+  { induction G as [|[p c] G IH]; [reflexivity|]. intros Sub. cbn [flat_map]. rewrite IH by (intros q Hq; apply Sub; right; exact Hq).
+    unfold tsel. cbn [fst]. destruct (cut_slash p) as [[c' r]|] eqn:E; [|reflexivity].
+    destruct (eqb_spec r (descname k)) as [->|]; [|reflexivity]. exfalso. apply (ND p c'); [apply Sub; left; reflexivity | exact E]. }
+  apply H. auto.
+Qed.
+
+(* the keypoints type in force after a folder has been handled *)
+Definition kt_after (k : fkind) (a : args) (kt : option string) (oF : option folder) : option string :=
+  match k with
+  | KP => match oF with
+          | Some F => match lookup (descname KP) F with
+                      | Some (Txt segs) => match read_old segs with
+                                           | inl d => resolve_type (a_kt a) (d_name d)
+                                           | inr _ => kt
+                                           end
+                      | _ => kt
+                      end
+          | None => kt
+          end
+  | _ => kt
+  end.
+
+(* what the in-place route may do to a feature folder: nothing, or the rewrite [in_folder] *)
+Definition folder_shape (k : fkind) (oF oF' : option folder) : Prop :=
+  oF' = oF \/ exists F ty row, oF = Some F /\ oF' = Some (in_folder k ty row F).
+Definition mt_shape (oF oF' : option folder) : Prop :=
+  oF' = oF \/ exists F ty, oF = Some F /\ oF' = Some (rename_feat ty mt_ext (move_key mt_json (under ty mt_json) F)).
+
+Lemma feat_step_sound k a t kt imgs fv :
+  tidy_folder k a kt imgs (get_folder k t) ->
+  opt_folder_view (get_folder k t) imgs (feat_view10 k a kt) = Some fv ->
+  exists oF', feat_step_in false a k (t, kt) = Done (set_folder k oF' t, kt_after k a kt (get_folder k t))
+              /\ opt_folder_view oF' imgs (feat_view11 k) = Some fv
+              /\ folder_shape k (get_folder k t) oF'.
+Proof.
+  unfold feat_step_in, tidy_folder. destruct (get_folder k t) as [F|] eqn:GF.
+  2:{ intros _ H. exists None. rewrite <- GF at 1. rewrite set_get_folder. split; [destruct k; reflexivity|]. split; [exact H | left; reflexivity]. }
+  intros [ND T] V. destruct imgs as [im|]; [|discriminate]. cbn [opt_folder_view] in V. unfold feat_view10 in V.
+  destruct (lookup (descname k) F) as [[segs|tok]|] eqn:LD.
+  - destruct T as [VL T]. rewrite VL. cbn [negb].
+    assert (NK : needs_kt false k && is_none kt = false).
+    { destruct k; try reflexivity. cbn. destruct kt; [reflexivity | discriminate]. }
+    rewrite NK.
+    assert (V' : match read_old segs with
+                 | inl d => match resolve_type (explicit k a) (d_name d) with
+                            | Some ty => Some [(ty, new_row k d (str_or_empty kt) a, data_of im EmptyString (fext k) F)]
+                            | None => None
+                            end
+                 | inr _ => None
+                 end = Some fv).
+    { destruct k; try exact V. destruct kt; [exact V | discriminate]. }
+    clear V. destruct (read_old segs) as [d|err] eqn:RO; [|discriminate].
+    destruct (resolve_type (explicit k a) (d_name d)) as [ty|] eqn:RT; [|discriminate].
+    injection V' as <-. destruct (T d ty eq_refl RT) as [GR [S IO]].
+    exists (Some (in_folder k ty (new_row k d (str_or_empty kt) a) F)). split; [|split; [|right; eauto]].
+    + assert (KA : kt_after k a kt (Some F) = match k with KP => Some ty | _ => kt end).
+      { destruct k; cbn [kt_after]; try reflexivity. rewrite LD, RO. exact RT. }
+      rewrite KA. reflexivity.
+    + cbn [opt_folder_view]. apply (feat_view11_upgraded k ty d (str_or_empty kt) a im F); auto.
+      * apply ftypes_in_folder; assumption.
+      * apply lookup_in_folder_desc.
+      * intros x Hx. apply lookup_in_folder_data, Hx.
+  - injection V as <-. exists (Some F). rewrite <- GF at 1. rewrite set_get_folder. split; [|split; [|left; reflexivity]].
+    + assert (KA : kt_after k a kt (Some F) = kt).
+      { destruct k; cbn [kt_after]; try reflexivity. rewrite LD. reflexivity. }
+      rewrite KA. reflexivity.
+    + cbn [opt_folder_view]. unfold feat_view11. rewrite (ftypes_none _ _ ND). reflexivity.
+  - injection V as <-. exists (Some F). rewrite <- GF at 1. rewrite set_get_folder. split; [|split; [|left; reflexivity]].
+    + assert (KA : kt_after k a kt (Some F) = kt).
+      { destruct k; cbn [kt_after]; try reflexivity. rewrite LD. reflexivity. }
+      rewrite KA. reflexivity.
+    + cbn [opt_folder_view]. unfold feat_view11. rewrite (ftypes_none _ _ ND). reflexivity.
+Qed.
+
+Lemma mt_step_sound t kt imgs mv :
+  (forall ty, kt = Some ty -> has_char "/" ty = false) ->
+  opt_folder_view (t_mt t) imgs (fun im F => match kt with Some ty => Some (mt_view10 ty im F) | None => None end) = Some mv ->
+  exists oF', mt_step_in false (t, kt) = Done (set_mt oF' t, kt)
+              /\ opt_folder_view oF' imgs (fun im F => Some (mt_view11 im F)) = Some mv
+              /\ mt_shape (t_mt t) oF'.
+Proof.
+  intros S V. unfold mt_step_in. destruct (t_mt t) as [F|] eqn:M.
+  - destruct imgs as [im|]; [|discriminate]. cbn [opt_folder_view] in V. destruct kt as [ty|]; [|discriminate].
+    injection V as <-. eexists. split; [reflexivity|]. split; [|right; exists F, ty; split; reflexivity].
+    cbn [opt_folder_view]. unfold mover. f_equal.
+    apply mt_view_inplace. apply (S ty eq_refl).
+  - exists None. split; [|split; [exact V | left; reflexivity]]. f_equal. f_equal. destruct t; cbn in *. subst. reflexivity.
+Qed.
+
+Lemma kt_after_kp a t imgs kpv :
+  opt_folder_view (t_kp t) imgs (feat_view10 KP a (a_kt a)) = Some kpv ->
+  kt_after KP a (a_kt a) (t_kp t) = kt_for a t.
+Proof.
+  unfold kt_for, kt_after, type_for. destruct (t_kp t) as [F|]; [|reflexivity].
+  destruct imgs as [im|]; [|discriminate]. cbn [opt_folder_view]. unfold feat_view10.
+  destruct (lookup (descname KP) F) as [[segs|tok]|]; try reflexivity.
+  destruct (read_old segs); [reflexivity | discriminate].
+Qed.
+
+(* what the in-place route needs from a 1.0 tree beyond being loadable *)
+Record tidy10 (a : args) (t : tree) : Prop := {
+  td_versions : versions_lenient csv_1_0 (t_top t);
+  td_headers : headers_are_comments csv_1_0 (t_top t);
+  td_kp : tidy_folder KP a (a_kt a) (images_of (t_top t)) (t_kp t);
+  td_ds : tidy_folder DS a (kt_for a t) (images_of (t_top t)) (t_ds t);
+  td_gf : tidy_folder GF a (kt_for a t) (images_of (t_top t)) (t_gf t);
+  td_kt : forall ty, kt_for a t = Some ty -> has_char "/" ty = false /\ clean ty = true;
+  td_obs : forall segs, lookup obs_file (t_top t) = Some (Txt segs) ->
+           version_ok_lenient (version_of_file segs) = true /\
+           forall m, obs_collect (rows segs) [] = Some m -> images_clean (sortZ m)
+}.
+
+Lemma kp_images_single ty cfg data : kp_images [(ty, cfg, data)] ty = map fst data.
+Proof. unfold kp_images. cbn. rewrite eqb_refl. reflexivity. Qed.
+
+Lemma images_of_ext top top' :
+  table_rows top' records_camera_file = table_rows top records_camera_file -> images_of top' = images_of top.
+Proof. unfold images_of. intros ->. reflexivity. Qed.
+
+Theorem inplace_preserves a t v :
+  tidy10 a t -> load10 a t = Some v ->
+  exists st, upgrade_inplace a t = Done st /\ load11 (fst st) = Some v /\
+    (* frame *)
+    t_rd (fst st) = t_rd t /\
+    (forall n, memb n csv_1_0 = false -> n <> obs_file -> lookup n (t_top (fst st)) = lookup n (t_top t)) /\
+    (forall k, folder_shape k (get_folder k t) (get_folder k (fst st))) /\
+    mt_shape (t_mt t) (t_mt (fst st)) /\
+    (* the text tables: same lines, new version line *)
+    (forall n, memb n csv_1_0 = true -> lookup n (t_top (fst st)) = rewritten csv_1_0 (t_top t) n).
+Proof.
+  intros [TV TH TK TD TG TKT TO] L10. unfold load10 in L10.
+  destruct (lookup sensors_file (t_top t)) as [[ssegs|?]|] eqn:LS; try discriminate.
+  destruct (version_ok_lenient (version_of_file ssegs)) eqn:VS; [|discriminate]. cbn [negb] in L10.
+  set (imgs := images_of (t_top t)) in *. set (kt := kt_for a t) in *.
+  destruct (opt_folder_view (t_kp t) imgs (feat_view10 KP a (a_kt a))) as [kpv|] eqn:VK; [|discriminate].
+  destruct (opt_folder_view (t_ds t) imgs (feat_view10 DS a kt)) as [dsv|] eqn:VD; [|discriminate].
+  destruct (opt_folder_view (t_gf t) imgs (feat_view10 GF a kt)) as [gfv|] eqn:VG; [|discriminate].
+  destruct (opt_folder_view (t_mt t) imgs (fun im F => match kt with Some ty => Some (mt_view10 ty im F) | None => None end))
+    as [mtv|] eqn:VM; [|discriminate].
+  (* text tables *)
+  destruct (csv_step_in_done csv_1_0 (t_top t) csv_1_0_nodup TV) as [top' [CS [LT KT]]].
+  assert (TR : forall n, table_rows top' n = table_rows (t_top t) n) by (intro n; apply (table_rows_rewritten csv_1_0); assumption).
+  assert (LO : lookup obs_file top' = lookup obs_file (t_top t)) by (rewrite LT; unfold rewritten; rewrite obs_not_csv; reflexivity).
+  assert (LS' : lookup sensors_file top' = Some (Txt (rewrite_header ssegs))) by (rewrite LT; unfold rewritten; rewrite sensors_in_csv, LS; reflexivity).
+  (* the folders, one after the other *)
+  set (t0 := set_top top' t).
+  destruct (feat_step_sound KP a t0 (a_kt a) imgs kpv TK VK) as [kp' [SK [VK' HK]]].
+  change (get_folder KP t0) with (t_kp t) in SK. rewrite (kt_after_kp a t imgs kpv VK) in SK. fold kt in SK.
+  set (t1 := set_folder KP kp' t0) in *.
+  destruct (feat_step_sound DS a t1 kt imgs dsv TD VD) as [ds' [SD [VD' HD]]].
+  change (kt_after DS a kt (get_folder DS t1)) with kt in SD.
+  set (t2 := set_folder DS ds' t1) in *.
+  destruct (mt_step_sound t2 kt imgs mtv (fun ty E => proj1 (TKT ty E)) VM) as [mt' [SM [VM' HM]]].
+  set (t3 := set_mt mt' t2) in *.
+  destruct (feat_step_sound GF a t3 kt imgs gfv TG VG) as [gf' [SG [VG' HG]]].
+  change (kt_after GF a kt (get_folder GF t3)) with kt in SG.
+  set (t4 := set_folder GF gf' t3) in *.
+  assert (Steps : upgrade_inplace a t = obs_step_in (t4, kt)).
+  { unfold upgrade_inplace, upgrade_inplace_gen. rewrite CS. fold t0. rewrite SK. cbn [bind]. rewrite SD. cbn [bind].
+    rewrite SM. cbn [bind]. rewrite SG. cbn [bind]. reflexivity. }
+  assert (TOP4 : t_top t4 = top') by reflexivity.
+  assert (IM : forall topf, (forall n, n <> obs_file -> lookup n topf = lookup n top') -> images_of topf = imgs).
+  { intros topf E. apply images_of_ext. unfold table_rows at 1. rewrite (E _ records_camera_not_obs). apply TR. }
+  assert (TB : forall topf, (forall n, n <> obs_file -> lookup n topf = lookup n top') -> tables_view topf = tables_view (t_top t)).
+  { intros topf E. apply tables_view_ext. intros n N. unfold table_rows at 1. rewrite (E n N). apply TR. }
+  assert (FRT : forall n, memb n csv_1_0 = false -> lookup n top' = lookup n (t_top t)).
+  { intros n M. rewrite LT. unfold rewritten. rewrite M. reflexivity. }
+  assert (FRF : forall k, folder_shape k (get_folder k t) (get_folder k t4)).
+  { intros k. destruct k; [exact HK | exact HD | exact HG]. }
+  assert (FRM : mt_shape (t_mt t) (t_mt t4)) by exact HM.
+  rewrite Steps. unfold obs_step_in. rewrite TOP4, LO.
+  destruct (lookup obs_file (t_top t)) as [[osegs|?]|] eqn:LOB.
+  - (* observations present *)
+    destruct kpv as [|kpe kpr]; [discriminate|]. destruct (lookup points3d_file (t_top t)) eqn:LP; [|discriminate].
+    destruct kt as [ty|] eqn:KTE; [|discriminate]. fold kt in KTE.
+    destruct (obs_view10 ty (kp_images (kpe :: kpr) ty) (rows osegs)) as [ov|] eqn:OV; [|discriminate].
+    injection L10 as <-.
+    destruct (TO osegs eq_refl) as [VO CI]. rewrite VO. cbn [negb].
+    unfold obs_view10 in OV. destruct (obs_collect (rows osegs) []) as [m|] eqn:OC; [|discriminate].
+    destruct (TKT ty eq_refl) as [Sty Cty].
+    eexists. split; [reflexivity|]. cbn [fst].
+    set (topf := insert obs_file (obs_file11 ty m) top').
+    split; [|split; [reflexivity|split; [|split; [exact FRF | split; [exact FRM|]]]]].
+    2:{ intros n M N. change (t_top (set_top topf t4)) with topf. unfold topf. rewrite lookup_insert_neq by exact N. apply FRT, M. }
+    2:{ intros n M. change (t_top (set_top topf t4)) with topf. unfold topf. rewrite lookup_insert_neq; [apply LT|].
+        intros ->. rewrite obs_not_csv in M. discriminate. }
+    assert (E : forall n, n <> obs_file -> lookup n topf = lookup n top') by (intros n N; unfold topf; apply lookup_insert_neq; exact N).
+    unfold load11. change (t_top (set_top topf t4)) with topf.
+    rewrite (E _ sensors_not_obs), LS', version_rewrite_header, eqb_refl. cbn [negb].
+    rewrite (IM topf E).
+    change (t_kp (set_top topf t4)) with kp'. change (t_ds (set_top topf t4)) with ds'.
+    change (t_gf (set_top topf t4)) with gf'. change (t_mt (set_top topf t4)) with mt'.
+    rewrite VK', VD', VG', VM'.
+    assert (LOF : lookup obs_file topf = Some (obs_file11 ty m)) by (unfold topf; apply lookup_insert_eq).
+    rewrite LOF. unfold obs_file11 at 1.
+    rewrite (E _ points3d_not_obs). unfold table_rows in TR.
+    assert (LP' : lookup points3d_file top' <> None).
+    { rewrite LT. unfold rewritten. destruct (memb points3d_file csv_1_0); rewrite LP; [destruct c|]; discriminate. }
+    destruct (lookup points3d_file top'); [|contradiction].
+    pose proof (obs_roundtrip ty (kp_images (kpe :: kpr) ty) (rows osegs) m Cty OC (CI m eq_refl) (kp_images (kpe :: kpr)) eq_refl) as RT.
+    unfold obs_file11 in RT. unfold obs_view10 in RT. rewrite OC in RT.
+    destruct (obs_collect11 (kp_images (kpe :: kpr)) (rows ([format_11; obs_hdr] ++ map (obs_line ty) (sortZ m) ++ [EmptyString])) [])
+      as [m11|]; [|discriminate].
+    cbn [option_map] in RT. injection RT as RT. rewrite RT, (TB topf E). injection OV as <-. reflexivity.
+  - (* a binary file under the name of the observations: left alone by both *)
+    injection L10 as <-. eexists. split; [reflexivity|]. cbn [fst].
+    split; [|split; [reflexivity|split; [|split; [exact FRF | split; [exact FRM|]]]]].
+    2:{ intros n M N. rewrite TOP4. apply FRT, M. }
+    2:{ intros n M. rewrite TOP4. apply LT. }
+    unfold load11. rewrite TOP4, LS', version_rewrite_header, eqb_refl. cbn [negb].
+    rewrite (IM top' (fun n _ => eq_refl)).
+    change (t_kp t4) with kp'. change (t_ds t4) with ds'. change (t_gf t4) with gf'. change (t_mt t4) with mt'.
+    rewrite VK', VD', VG', VM', LO, (TB top' (fun n _ => eq_refl)). reflexivity.
+  - injection L10 as <-. eexists. split; [reflexivity|]. cbn [fst].
+    split; [|split; [reflexivity|split; [|split; [exact FRF | split; [exact FRM|]]]]].
+    2:{ intros n M N. rewrite TOP4. apply FRT, M. }
+    2:{ intros n M. rewrite TOP4. apply LT. }
+    unfold load11. rewrite TOP4, LS', version_rewrite_header, eqb_refl. cbn [negb].
+    rewrite (IM top' (fun n _ => eq_refl)).
+    change (t_kp t4) with kp'. change (t_ds t4) with ds'. change (t_gf t4) with gf'. change (t_mt t4) with mt'.
+    rewrite VK', VD', VG', VM', LO, (TB top' (fun n _ => eq_refl)). reflexivity.
+Qed.
+
+(* ================================================================== 9. the copy route *)
+Definition versions_strict (names : list string) (top : folder) : Prop :=
+  forall n segs, In n names -> lookup n top = Some (Txt segs) ->
+    (if contains "points3d" n then version_ok_lenient (version_of_file segs) else version_ok_strict (version_of_file segs)) = true.
+
+Definition copied (names : list string) (top : folder) (k : string) : option content :=
+  if memb k names then
+    match lookup k top with Some (Txt segs) => Some (Txt (rewrite_header segs)) | _ => None end
+  else None.
+
+Lemma csv_step_cp_done names top :
+  NoDup names -> versions_strict names top ->
+  exists topc, csv_step_cp names top = Some topc /\ forall k, lookup k topc = copied names top k.
+Proof.
+  induction names as [|n ns IH]; intros ND V.
+  - exists []. split; reflexivity.
+  - inversion ND as [|? ? Nn NDs]; subst. cbn [csv_step_cp].
+    assert (Vs : versions_strict ns top) by (intros m s Hm; apply V; right; exact Hm).
+    destruct (IH NDs Vs) as [topc [C L]].
+    destruct (lookup n top) as [[segs|tok]|] eqn:E.
+    + rewrite (V n segs (or_introl eq_refl) E), C. cbn [option_map]. eexists. split; [reflexivity|].
+      intros k. cbn [lookup]. unfold copied. cbn [memb]. destruct (eqb_spec k n) as [->|Nk].
+      * rewrite E. reflexivity.
+      * cbn [orb]. apply L.
+    + exists topc. split; [exact C|]. intros k. rewrite L. unfold copied. cbn [memb].
+      destruct (eqb_spec k n) as [->|Nk]; [|reflexivity]. apply memb_not_In in Nn. rewrite Nn, E. reflexivity.
+    + exists topc. split; [exact C|]. intros k. rewrite L. unfold copied. cbn [memb].
+      destruct (eqb_spec k n) as [->|Nk]; [|reflexivity]. apply memb_not_In in Nn. rewrite Nn, E. reflexivity.
+Qed.
+
+Lemma tables_view_ext_in top top' :
+  (forall n, In n csv_11 -> n <> obs_file -> table_rows top' n = table_rows top n) -> tables_view top' = tables_view top.
+Proof.
+  intros H. unfold tables_view. induction csv_11 as [|n l IH]; [reflexivity|]. cbn [List.filter].
+  destruct (eqb_spec n obs_file) as [->|N]; cbn [negb].
+  - apply IH. intros m Hm. apply H. right; exact Hm.
+  - cbn [flat_map]. rewrite IH, (H n (or_introl eq_refl) N); [reflexivity|]. intros m Hm. apply H. right; exact Hm.
+Qed.
+
+Lemma csv_11_in_1_0 n : In n csv_11 -> n <> obs_file -> memb n csv_1_0 = true.
+Proof.
+  assert (H : forallb (fun n => eqb n obs_file || memb n csv_1_0) csv_11 = true) by (vm_compute; reflexivity).
+  intros I N. rewrite forallb_forall in H. specialize (H n I). rewrite (neq_eqb _ _ N) in H. exact H.
+Qed.
+
+Lemma table_rows_copied top topc n :
+  headers_are_comments csv_1_0 top -> (forall k, lookup k topc = copied csv_1_0 top k) ->
+  memb n csv_1_0 = true -> table_rows topc n = table_rows top n.
+Proof.
+  intros HC L M. unfold table_rows. rewrite L. unfold copied. rewrite M.
+  destruct (lookup n top) as [[segs|tok]|] eqn:E; try reflexivity.
+  apply memb_In in M. rewrite (rows_rewrite_header _ (HC n segs M E)). reflexivity.
+Qed.
+
+Definition strict_folder (k : fkind) (oF : option folder) : Prop :=
+  forall F segs, oF = Some F -> lookup (descname k) F = Some (Txt segs) -> version_ok_strict (version_of_file segs) = true.
+
+Lemma feat_step_cp_sound k a oF kt imgs fv :
+  tidy_folder k a kt imgs oF -> strict_folder k oF ->
+  opt_folder_view oF imgs (feat_view10 k a kt) = Some fv ->
+  exists oF', feat_step_cp false a k oF kt = inl (oF', kt_after k a kt oF)
+              /\ opt_folder_view oF' imgs (feat_view11 k) = Some fv.
+Proof.
+  unfold feat_step_cp, tidy_folder. destruct oF as [F|].
+  2:{ intros _ _ H. exists None. split; [destruct k; reflexivity | exact H]. }
+  intros [ND T] ST V. destruct imgs as [im|]; [|discriminate]. cbn [opt_folder_view] in V. unfold feat_view10 in V.
+  destruct (lookup (descname k) F) as [[segs|tok]|] eqn:LD.
+  - destruct T as [_ T]. rewrite (ST F segs eq_refl LD). cbn [negb].
+    assert (NK : needs_kt false k && is_none kt = false).
+    { destruct k; try reflexivity. cbn. destruct kt; [reflexivity | discriminate]. }
+    rewrite NK.
+    assert (V' : match read_old segs with
+                 | inl d => match resolve_type (explicit k a) (d_name d) with
+                            | Some ty => Some [(ty, new_row k d (str_or_empty kt) a, data_of im EmptyString (fext k) F)]
+                            | None => None
+                            end
+                 | inr _ => None
+                 end = Some fv).
+    { destruct k; try exact V. destruct kt; [exact V | discriminate]. }
+    clear V. destruct (read_old segs) as [d|err] eqn:RO; [|discriminate].
+    destruct (resolve_type (explicit k a) (d_name d)) as [ty|] eqn:RT; [|discriminate].
+    injection V' as <-. destruct (T d ty eq_refl RT) as [GR [S IO]].
+    exists (Some (cp_folder k ty (new_row k d (str_or_empty kt) a) F)). split.
+    + assert (KA : kt_after k a kt (Some F) = match k with KP => Some ty | _ => kt end).
+      { destruct k; cbn [kt_after]; try reflexivity. rewrite LD, RO. exact RT. }
+      rewrite KA. reflexivity.
+    + cbn [opt_folder_view]. apply (feat_view11_upgraded k ty d (str_or_empty kt) a im F); auto.
+      * apply ftypes_cp_folder; assumption.
+      * apply lookup_cp_folder_desc.
+      * intros x Hx. apply lookup_cp_folder_data, Hx.
+  - injection V as <-. exists None. split; [|reflexivity].
+    assert (KA : kt_after k a kt (Some F) = kt) by (destruct k; cbn [kt_after]; try reflexivity; rewrite LD; reflexivity).
+    rewrite KA. reflexivity.
+  - injection V as <-. exists None. split; [|reflexivity].
+    assert (KA : kt_after k a kt (Some F) = kt) by (destruct k; cbn [kt_after]; try reflexivity; rewrite LD; reflexivity).
+    rewrite KA. reflexivity.
+Qed.
+
+Record tidy10_strict (a : args) (t : tree) : Prop := {
+  ts_versions : versions_strict csv_1_0 (t_top t);
+  ts_kp : strict_folder KP (t_kp t);
+  ts_ds : strict_folder DS (t_ds t);
+  ts_gf : strict_folder GF (t_gf t);
+  ts_obs : forall segs, lookup obs_file (t_top t) = Some (Txt segs) -> version_ok_strict (version_of_file segs) = true;
+  (* the files under the names of the text tables are text files (the routes only look at the name) *)
+  ts_text : forall n c, In n csv_1_0 -> lookup n (t_top t) = Some c -> exists segs, c = Txt segs
+}.
+
+Lemma mt_view_copy_opt imgs ty (F : folder) im :
+  has_char "/" ty = false -> imgs = Some im ->
+  opt_folder_view (nonempty_folder (feat_files_cp ty mt_ext F)) imgs (fun im F => Some (mt_view11 im F))
+  = Some (mt_view10 ty im F).
+Proof.
+  intros S ->. rewrite <- (mt_view_copy im ty F S). destruct (feat_files_cp ty mt_ext F); reflexivity.
+Qed.
+
+Theorem copy_preserves a s t v :
+  tidy10 a t -> tidy10_strict a t -> load10 a t = Some v ->
+  exists r, upgrade_copy a s t = CDone r /\ load11 (c_out r) = Some v.
+Proof.
+  intros [TV TH TK TD TG TKT TO] [SV SK SD SG SO STX] L10. unfold load10 in L10.
+  destruct (lookup sensors_file (t_top t)) as [[ssegs|?]|] eqn:LS; try discriminate.
+  destruct (version_ok_lenient (version_of_file ssegs)) eqn:VS; [|discriminate]. cbn [negb] in L10.
+  set (imgs := images_of (t_top t)) in *. set (kt := kt_for a t) in *.
+  destruct (opt_folder_view (t_kp t) imgs (feat_view10 KP a (a_kt a))) as [kpv|] eqn:VK; [|discriminate].
+  destruct (opt_folder_view (t_ds t) imgs (feat_view10 DS a kt)) as [dsv|] eqn:VD; [|discriminate].
+  destruct (opt_folder_view (t_gf t) imgs (feat_view10 GF a kt)) as [gfv|] eqn:VG; [|discriminate].
+  destruct (opt_folder_view (t_mt t) imgs (fun im F => match kt with Some ty => Some (mt_view10 ty im F) | None => None end))
+    as [mtv|] eqn:VM; [|discriminate].
+  destruct (csv_step_cp_done csv_1_0 (t_top t) csv_1_0_nodup SV) as [topc [CS LT]].
+  assert (TR : forall n, In n csv_11 -> n <> obs_file -> table_rows topc n = table_rows (t_top t) n).
+  { intros n I N. apply table_rows_copied; [exact TH | exact LT | apply csv_11_in_1_0; assumption]. }
+  assert (LO : lookup obs_file topc = None) by (rewrite LT; unfold copied; rewrite obs_not_csv; reflexivity).
+  assert (LS' : lookup sensors_file topc = Some (Txt (rewrite_header ssegs))) by (rewrite LT; unfold copied; rewrite sensors_in_csv, LS; reflexivity).
+  destruct (feat_step_cp_sound KP a (t_kp t) (a_kt a) imgs kpv TK SK VK) as [kp' [EK VK']].
+  rewrite (kt_after_kp a t imgs kpv VK) in EK. fold kt in EK.
+  destruct (feat_step_cp_sound DS a (t_ds t) kt imgs dsv TD SD VD) as [ds' [ED VD']].
+  change (kt_after DS a kt (t_ds t)) with kt in ED.
+  destruct (feat_step_cp_sound GF a (t_gf t) kt imgs gfv TG SG VG) as [gf' [EG VG']].
+  change (kt_after GF a kt (t_gf t)) with kt in EG.
+  (* matches *)
+  assert (MT : exists mt', (match t_mt t with
+                            | None => inl None
+                            | Some F => match kt with None => inr Refused | Some ty => inl (nonempty_folder (feat_files_cp ty mt_ext F)) end
+                            end) = inl mt'
+                           /\ opt_folder_view mt' imgs (fun im F => Some (mt_view11 im F)) = Some mtv).
+  { destruct (t_mt t) as [F|]; [|exists None; split; [reflexivity | exact VM]].
+    destruct imgs as [im|] eqn:IE; [|discriminate]. cbn [opt_folder_view] in VM. destruct kt as [ty|] eqn:KE; [|discriminate].
+    injection VM as <-. eexists. split; [reflexivity|]. apply mt_view_copy_opt; [apply (TKT ty eq_refl) | reflexivity]. }
+  destruct MT as [mt' [EM VM']].
+  assert (RD : exists rdo srd, rd_step_cp false s (t_rd t) = inl (rdo, srd)).
+  { unfold rd_step_cp. destruct (t_rd t); destruct s; eauto. }
+  destruct RD as [rdo [srd ER]].
+  assert (IM : forall topf, (forall n, n <> obs_file -> lookup n topf = lookup n topc) -> images_of topf = imgs).
+  { intros topf E. apply images_of_ext. unfold table_rows at 1. rewrite (E _ records_camera_not_obs).
+    apply (TR records_camera_file); [vm_compute; tauto | apply records_camera_not_obs]. }
+  assert (TB : forall topf, (forall n, n <> obs_file -> lookup n topf = lookup n topc) -> tables_view topf = tables_view (t_top t)).
+  { intros topf E. apply tables_view_ext_in. intros n I N. unfold table_rows at 1. rewrite (E n N). apply TR; assumption. }
+  unfold upgrade_copy, upgrade_copy_gen. rewrite CS, EK, ED, EM, EG.
+  destruct (lookup obs_file (t_top t)) as [[osegs|?]|] eqn:LOB.
+  - destruct kpv as [|kpe kpr]; [discriminate|]. destruct (lookup points3d_file (t_top t)) eqn:LP; [|discriminate].
+    destruct kt as [ty|] eqn:KTE; [|discriminate].
+    destruct (obs_view10 ty (kp_images (kpe :: kpr) ty) (rows osegs)) as [ov|] eqn:OV; [|discriminate].
+    injection L10 as <-. rewrite (SO osegs eq_refl). cbn [negb].
+    destruct (TO osegs eq_refl) as [_ CI].
+    unfold obs_view10 in OV. destruct (obs_collect (rows osegs) []) as [m|] eqn:OC; [|discriminate].
+    destruct (TKT ty eq_refl) as [Sty Cty]. rewrite ER. eexists. split; [reflexivity|]. cbn [c_out].
+    set (topf := topc ++ [(obs_file, obs_file11 ty m)]).
+    assert (E : forall n, n <> obs_file -> lookup n topf = lookup n topc).
+    { intros n N. unfold topf. rewrite lookup_app. destruct (lookup n topc); [reflexivity|]. cbn [lookup]. rewrite (neq_eqb _ _ N). reflexivity. }
+    unfold load11. cbn [t_top t_kp t_ds t_gf t_mt].
+    rewrite (E _ sensors_not_obs), LS', version_rewrite_header, eqb_refl. cbn [negb].
+    rewrite (IM topf E), VK', VD', VG', VM'.
+    assert (LOF : lookup obs_file topf = Some (obs_file11 ty m)).
+    { unfold topf. rewrite lookup_app, LO. cbn [lookup]. rewrite eqb_refl. reflexivity. }
+    rewrite LOF. unfold obs_file11 at 1. rewrite (E _ points3d_not_obs).
+    assert (LP' : lookup points3d_file topc <> None).
+    { rewrite LT. unfold copied. assert (memb points3d_file csv_1_0 = true) as -> by (vm_compute; reflexivity).
+      rewrite LP. assert (I3 : In points3d_file csv_1_0) by (vm_compute; tauto).
+      destruct (STX _ _ I3 LP) as [psegs ->]. discriminate. }
+    destruct (lookup points3d_file topc); [|contradiction].
+    pose proof (obs_roundtrip ty (kp_images (kpe :: kpr) ty) (rows osegs) m Cty OC (CI m eq_refl) (kp_images (kpe :: kpr)) eq_refl) as RT.
+    unfold obs_file11 in RT. unfold obs_view10 in RT. rewrite OC in RT.
+    destruct (obs_collect11 (kp_images (kpe :: kpr)) (rows ([format_11; obs_hdr] ++ map (obs_line ty) (sortZ m) ++ [EmptyString])) [])
+      as [m11|]; [|discriminate].
+    cbn [option_map] in RT. injection RT as RT. rewrite RT, (TB topf E). injection OV as <-. reflexivity.
+  - injection L10 as <-. rewrite ER. eexists. split; [reflexivity|]. cbn [c_out].
+    unfold load11. cbn [t_top t_kp t_ds t_gf t_mt]. rewrite LS', version_rewrite_header, eqb_refl. cbn [negb].
+    rewrite (IM topc (fun n _ => eq_refl)), VK', VD', VG', VM', LO, (TB topc (fun n _ => eq_refl)). reflexivity.
+  - injection L10 as <-. rewrite ER. eexists. split; [reflexivity|]. cbn [c_out].
+    unfold load11. cbn [t_top t_kp t_ds t_gf t_mt]. rewrite LS', version_rewrite_header, eqb_refl. cbn [negb].
+    rewrite (IM topc (fun n _ => eq_refl)), VK', VD', VG', VM', LO, (TB topc (fun n _ => eq_refl)). reflexivity.
+Qed.
+
+(* ================================================================== 10. both routes give the same dataset, file by file where it matters *)
+Theorem routes_agree a s t v :
+  tidy10 a t -> tidy10_strict a t -> load10 a t = Some v ->
+  exists st r, upgrade_inplace a t = Done st /\ upgrade_copy a s t = CDone r /\
+               load11 (fst st) = Some v /\ load11 (c_out r) = Some v.
+Proof.
+  intros T S L. destruct (inplace_preserves a t v T L) as [st [E1 [L1 _]]].
+  destruct (copy_preserves a s t v T S L) as [r [E2 L2]]. exists st, r. auto.
+Qed.
+
+(* every file of the copied folder is in the folder upgraded in place, with the same content *)
+Lemma copy_within_inplace k ty row F q c :
+  lookup q (cp_folder k ty row F) = Some c -> lookup q (in_folder k ty row F) = Some c.
+Proof.
+  intros H. apply lookup_cp_folder_only in H as [[-> ->]|[x [-> [X L]]]].
+  - apply lookup_in_folder_desc.
+  - rewrite lookup_in_folder_data by exact X. exact L.
+Qed.
+
+(* ================================================================== 11. the version every written file declares *)
+Lemma declares_11_table names top top' n segs :
+  (forall k, lookup k top' = rewritten names top k) -> In n names -> lookup n top = Some (Txt segs) ->
+  exists segs', lookup n top' = Some (Txt segs') /\ version_of_file segs' = Some version_11.
+Proof.
+  intros L I E. exists (rewrite_header segs). split; [|apply version_rewrite_header].
+  rewrite L. unfold rewritten. apply memb_In in I. rewrite I, E. reflexivity.
+Qed.
+
+Lemma declares_11_descriptor k row :
+  match desc11 k row with Txt segs => version_of_file segs | Bin _ => None end = Some version_11.
+Proof. exact version_format_11. Qed.
+
+(* ================================================================== 12. a tree that is already upgraded is refused untouched *)
+Definition all_other_version (top : folder) : Prop :=
+  forall n segs, In n csv_1_0 -> lookup n top = Some (Txt segs) -> version_ok_lenient (version_of_file segs) = false.
+
+Theorem inplace_refuses_other_version a t ssegs :
+  all_other_version (t_top t) -> lookup sensors_file (t_top t) = Some (Txt ssegs) ->
+  upgrade_inplace a t = Failed Refused (t, a_kt a).
+Proof.
+  intros A S. unfold upgrade_inplace, upgrade_inplace_gen.
+  rewrite (csv_step_in_refuses csv_1_0 (t_top t) A).
+  - destruct t; reflexivity.
+  - exists sensors_file, ssegs. split; [|exact S]. apply memb_In, sensors_in_csv.
+Qed.
+
+Lemma csv_step_cp_refuses names top n segs :
+  In n names -> lookup n top = Some (Txt segs) ->
+  (if contains "points3d" n then version_ok_lenient (version_of_file segs) else version_ok_strict (version_of_file segs)) = false ->
+  csv_step_cp names top = None.
+Proof.
+  induction names as [|m ns IH]; [contradiction|]. intros [->|I] E B; cbn [csv_step_cp].
+  - rewrite E, B. reflexivity.
+  - destruct (lookup m top) as [[s|?]|]; try (apply IH; assumption).
+    destruct (if contains "points3d" m then _ else _); [|reflexivity]. rewrite (IH I E B). reflexivity.
+Qed.
+
+Theorem copy_refuses_other_version a s t ssegs :
+  lookup sensors_file (t_top t) = Some (Txt ssegs) -> version_ok_strict (version_of_file ssegs) = false ->
+  upgrade_copy a s t = CFailed Refused.
+Proof.
+  intros S B. unfold upgrade_copy, upgrade_copy_gen.
+  rewrite (csv_step_cp_refuses csv_1_0 (t_top t) sensors_file ssegs); [reflexivity | apply memb_In, sensors_in_csv | exact S|].
+  assert (contains "points3d" sensors_file = false) as -> by (vm_compute; reflexivity). exact B.
+Qed.
+
+(* upgrading twice: the second run is refused and leaves the upgraded tree as it is *)
+Lemma version_11_not_lenient : version_ok_lenient (Some version_11) = false.
+Proof. vm_compute. reflexivity. Qed.
+
+(* ================================================================== 13. decidable versions of the hypotheses *)
+Definition versions_lenient_b (names : list string) (top : folder) : bool :=
+  forallb (fun n => match lookup n top with Some (Txt segs) => version_ok_lenient (version_of_file segs) | _ => true end) names.
+Definition versions_strict_b (names : list string) (top : folder) : bool :=
+  forallb (fun n => match lookup n top with
+                    | Some (Txt segs) => if contains "points3d" n then version_ok_lenient (version_of_file segs)
+                                         else version_ok_strict (version_of_file segs)
+                    | _ => true end) names.
+Definition headers_b (names : list string) (top : folder) : bool :=
+  forallb (fun n => match lookup n top with Some (Txt segs) => header_is_comment segs | _ => true end) names.
+Definition text_b (names : list string) (top : folder) : bool :=
+  forallb (fun n => match lookup n top with Some (Bin _) => false | _ => true end) names.
+Definition no_descriptor_below_b (k : fkind) (F : folder) : bool :=
+  forallb (fun p => match cut_slash p with Some (_, r) => negb (eqb r (descname k)) | None => true end) (keys F).
+Definition good_row_b (k : fkind) (d : desc10) (kt : string) (a : args) : bool :=
+  clean (d_name d) && not_hash (d_name d) && memb (d_dtype d) dtype_names &&
+  match k with KP => true | DS => clean kt && clean (a_dm a) | GF => clean (a_gm a) end.
+Definition images_ok_b (e : string) (imgs : list string) : bool := forallb (fun i => has_ext e (i +++ e)) imgs.
+Definition tidy_folder_b (k : fkind) (a : args) (kt : option string) (imgs : option (list string)) (oF : option folder) : bool :=
+  match oF with
+  | None => true
+  | Some F =>
+    no_descriptor_below_b k F &&
+    match lookup (descname k) F with
+    | Some (Txt segs) =>
+      version_ok_lenient (version_of_file segs) &&
+      match read_old segs with
+      | inl d => match resolve_type (explicit k a) (d_name d) with
+                 | Some ty => good_row_b k d (str_or_empty kt) a && negb (has_char "/" ty) &&
+                              match imgs with Some im => images_ok_b (fext k) im | None => true end
+                 | None => true
+                 end
+      | inr _ => true
+      end
+    | _ => true
+    end
+  end.
+Definition strict_folder_b (k : fkind) (oF : option folder) : bool :=
+  match oF with
+  | Some F => match lookup (descname k) F with Some (Txt segs) => version_ok_strict (version_of_file segs) | _ => true end
+  | None => true
+  end.
+Definition images_clean_b (L : obs_map) : bool := forallb (fun e => forallb (fun ik => clean (fst ik)) (snd e)) L.
+Definition tidy10_b (a : args) (t : tree) : bool :=
+  versions_lenient_b csv_1_0 (t_top t) && headers_b csv_1_0 (t_top t) &&
+  tidy_folder_b KP a (a_kt a) (images_of (t_top t)) (t_kp t) &&
+  tidy_folder_b DS a (kt_for a t) (images_of (t_top t)) (t_ds t) &&
+  tidy_folder_b GF a (kt_for a t) (images_of (t_top t)) (t_gf t) &&
+  match kt_for a t with Some ty => negb (has_char "/" ty) && clean ty | None => true end &&
+  match lookup obs_file (t_top t) with
+  | Some (Txt segs) => version_ok_lenient (version_of_file segs) &&
+                       match obs_collect (rows segs) [] with Some m => images_clean_b (sortZ m) | None => true end
+  | _ => true
+  end.
+Definition tidy10_strict_b (a : args) (t : tree) : bool :=
+  versions_strict_b csv_1_0 (t_top t) && strict_folder_b KP (t_kp t) && strict_folder_b DS (t_ds t) &&
+  strict_folder_b GF (t_gf t) &&
+  match lookup obs_file (t_top t) with Some (Txt segs) => version_ok_strict (version_of_file segs) | _ => true end &&
+  text_b csv_1_0 (t_top t).
+
+Lemma tidy_folder_b_sound k a kt imgs oF : tidy_folder_b k a kt imgs oF = true -> tidy_folder k a kt imgs oF.
+Proof.
+  unfold tidy_folder_b, tidy_folder. destruct oF as [F|]; [|auto]. rewrite andb_true_iff. intros [ND T]. split.
+  - intros p c I E. unfold no_descriptor_below_b in ND. rewrite forallb_forall in ND. specialize (ND p I).
+    rewrite E, eqb_refl in ND. discriminate.
+  - destruct (lookup (descname k) F) as [[segs|?]|]; auto. apply andb_true_iff in T as [V T]. split; [exact V|].
+    intros d ty RO RT. rewrite RO, RT in T. rewrite !andb_true_iff in T. destruct T as [[G S] I].
+    split; [|split].
+    + unfold good_row_b in G. rewrite !andb_true_iff in G. destruct G as [[[A B] C] D]. repeat split; auto.
+      destruct k; auto. apply andb_true_iff in D. exact D.
+    + apply negb_true_iff in S. exact S.
+    + intros im ->. unfold images_ok_b in I. rewrite forallb_forall in I. exact I.
+Qed.
+
+Lemma tidy10_b_sound a t : tidy10_b a t = true -> tidy10 a t.
+Proof.
+  unfold tidy10_b. rewrite !andb_true_iff. intros [[[[[[V H] K] D] G] KT] O]. constructor.
+  - intros n segs I L. unfold versions_lenient_b in V. rewrite forallb_forall in V. specialize (V n I). rewrite L in V. exact V.
+  - intros n segs I L. unfold headers_b in H. rewrite forallb_forall in H. specialize (H n I). rewrite L in H. exact H.
+  - apply tidy_folder_b_sound, K.
+  - apply tidy_folder_b_sound, D.
+  - apply tidy_folder_b_sound, G.
+  - intros ty E. rewrite E in KT. apply andb_true_iff in KT as [A B]. apply negb_true_iff in A. auto.
+  - intros segs L. rewrite L in O. apply andb_true_iff in O as [A B]. split; [exact A|].
+    intros m C. rewrite C in B. intros e ik He Hik. unfold images_clean_b in B. rewrite forallb_forall in B.
+    specialize (B e He). rewrite forallb_forall in B. exact (B ik Hik).
+Qed.
+
+Lemma tidy10_strict_b_sound a t : tidy10_strict_b a t = true -> tidy10_strict a t.
+Proof.
+  unfold tidy10_strict_b. rewrite !andb_true_iff. intros [[[[[V K] D] G] O] X].
+  assert (SF : forall k oF, strict_folder_b k oF = true -> strict_folder k oF).
+  { intros k oF B F segs -> L. unfold strict_folder_b in B. rewrite L in B. exact B. }
+  constructor; auto.
+  - intros n segs I L. unfold versions_strict_b in V. rewrite forallb_forall in V. specialize (V n I). rewrite L in V. exact V.
+  - intros segs L. rewrite L in O. exact O.
+  - intros n c I L. unfold text_b in X. rewrite forallb_forall in X. specialize (X n I). rewrite L in X.
+    destruct c; [eauto | discriminate].
+Qed.
+
+(* running the in-place route a second time: refused, and the upgraded tree is left as it is *)
+Theorem second_run_refused a a' t v st :
+  tidy10 a t -> load10 a t = Some v -> upgrade_inplace a t = Done st ->
+  upgrade_inplace a' (fst st) = Failed Refused (fst st, a_kt a').
+Proof.
+  intros T L E. destruct (inplace_preserves a t v T L) as [st' [E' [_ [_ [_ [_ [_ RW]]]]]]].
+  rewrite E in E'. injection E' as <-.
+  assert (LS : exists ssegs, lookup sensors_file (t_top t) = Some (Txt ssegs)).
+  { unfold load10 in L. destruct (lookup sensors_file (t_top t)) as [[ssegs|?]|]; try discriminate. eauto. }
+  destruct LS as [ssegs LS].
+  apply (inplace_refuses_other_version a' (fst st) (rewrite_header ssegs)).
+  - intros n segs I Ln. apply memb_In in I. rewrite (RW n I) in Ln. unfold rewritten in Ln. rewrite I in Ln.
+    destruct (lookup n (t_top t)) as [[s0|?]|]; try discriminate. injection Ln as <-.
+    rewrite version_rewrite_header. apply version_11_not_lenient.
+  - rewrite (RW _ sensors_in_csv). unfold rewritten. rewrite sensors_in_csv, LS. reflexivity.
+Qed.
+
+(* ================================================================== 14. the repaired loop: one move after the other, longest path first,
+   is the parallel rename of the model; in any other order it may not be *)
+From Coq Require Import Sorting.Sorted.
+
+Lemma length_app_s a b : String.length (a +++ b) = (String.length a + String.length b)%nat.
+Proof. induction a as [|c a IH]; cbn; [reflexivity | rewrite IH; reflexivity]. Qed.
+
+Lemma length_under ty q : (String.length q < String.length (under ty q))%nat.
+Proof. unfold under. rewrite !length_app_s. cbn. lia. Qed.
+
+Section Sequential.
+  Variable ty e : string.
+  Variable F : folder.
+
+  Definition mstep (M : folder) (p : string) : folder := move_key p (under ty p) M.
+  Definition move_in_order (order : list string) (M : folder) : folder := fold_left mstep order M.
+
+  Lemma move_seq_eq : move_seq ty e F = move_in_order (List.filter (has_ext e) (keys F)) F.
+  Proof. reflexivity. Qed.
+
+  (* where the key k is read from once the files of [done] have been moved *)
+  Definition spec (done : list string) (k : string) : option content :=
+    match find (fun q => eqb k (under ty q)) done with
+    | Some q => lookup q F
+    | None => if memb k done then None else lookup k F
+    end.
+
+  Definition longest_first (L : list string) : Prop :=
+    StronglySorted (fun p q => (String.length q <= String.length p)%nat) L.
+
+  Lemma move_in_order_spec L : forall done M,
+    (forall k, lookup k M = spec done k) ->
+    NoDup L -> (forall p, In p L -> In p (keys F) /\ ~ In p done) ->
+    longest_first L -> (forall p q, In p L -> In q done -> (String.length p <= String.length q)%nat) ->
+    forall k, lookup k (move_in_order L M) = spec (rev L ++ done) k.
+  Proof.
+    induction L as [|p L IH]; intros done M Inv ND Sub Srt Len k; [apply Inv|].
+    cbn [move_in_order fold_left rev]. rewrite <- app_assoc. cbn [app].
+    inversion ND as [|? ? Np NDL]; subst. inversion Srt as [|? ? SrtL Hd]; subst.
+    destruct (Sub p (or_introl eq_refl)) as [PK PD].
+    assert (NF : forall done' q, (forall x, In x done' -> (String.length p <= String.length x)%nat) ->
+                                 find (fun q => eqb p (under ty q)) done' = Some q -> False).
+    { intros done' q Hl Hf. apply find_some in Hf as [Hq He]. apply eqb_true in He.
+      pose proof (Hl q Hq). pose proof (length_under ty q). rewrite <- He in H0. lia. }
+    assert (LP : lookup p M = lookup p F).
+    { rewrite Inv. unfold spec. destruct (find (fun q => eqb p (under ty q)) done) eqn:Fd.
+      - exfalso. apply (NF done s); [intros x Hx; apply (Len p x); [left; reflexivity | exact Hx] | exact Fd].
+      - apply memb_not_In in PD. rewrite PD. reflexivity. }
+    destruct (lookup p F) as [c|] eqn:LF.
+    2:{ exfalso. apply lookup_In_keys in PK. apply PK. exact LF. }
+    apply (IH (p :: done) (mstep M p)).
+    - intros x. unfold mstep. rewrite lookup_move_key.
+      2:{ intros E. pose proof (length_under ty p). rewrite <- E in H. lia. }
+      rewrite LP. unfold spec. cbn [find memb].
+      destruct (eqb_spec x (under ty p)) as [->|N1]; [exact (eq_sym LF) |].
+      destruct (eqb_spec x p) as [->|N2].
+      + destruct (find (fun q => eqb p (under ty q)) done) eqn:Fd; [|reflexivity].
+        exfalso. apply (NF done s); [intros y Hy; apply (Len p y); [left; reflexivity | exact Hy] | exact Fd].
+      + cbn [orb]. rewrite Inv. reflexivity.
+    - exact NDL.
+    - intros q Hq. destruct (Sub q (or_intror Hq)) as [A B]. split; [exact A|]. intros [<-|H]; [contradiction | contradiction].
+    - exact SrtL.
+    - intros x q Hx [<-|Hq].
+      + rewrite Forall_forall in Hd. apply Hd, Hx.
+      + apply (Len x q); [right; exact Hx | exact Hq].
+  Qed.
+
+  (* once every file with the extension has been moved, the folder is the renamed one *)
+  Lemma spec_all done k :
+    (forall q, In q done <-> In q (keys F) /\ has_ext e q = true) ->
+    spec done k = lookup k (rename_feat ty e F).
+  Proof.
+    intros D. unfold spec. destruct (find (fun q => eqb k (under ty q)) done) as [q|] eqn:Fd.
+    - apply find_some in Fd as [Hq He]. apply eqb_true in He. subst k. apply D in Hq as [_ X].
+      symmetry. apply lookup_rename_feat_feature, X.
+    - assert (NoSrc : forall p, In p (keys F) -> has_ext e p = true -> under ty p <> k).
+      { intros p Hp X E. pose proof (find_none _ _ Fd p (proj2 (D p) (conj Hp X))) as Nf. cbn in Nf.
+        rewrite <- E, eqb_refl in Nf. discriminate. }
+      assert (RN : has_ext e k = true -> lookup k (rename_feat ty e F) = None).
+      { intros X. rewrite rename_feat_eq. apply lookup_map_none. intros p Hp. fold (rn ty e p). unfold rn.
+        destruct (has_ext e p) eqn:Xp; [apply NoSrc; assumption | intros ->; congruence]. }
+      destruct (memb k done) eqn:Mk.
+      + apply memb_In in Mk. apply D in Mk as [_ X]. symmetry. apply RN, X.
+      + destruct (has_ext e k) eqn:X.
+        * rewrite (RN eq_refl). apply lookup_None_keys. intros Hk. apply memb_not_In in Mk. apply Mk, D. auto.
+        * symmetry. apply lookup_rename_feat_other, X.
+  Qed.
+
+  Theorem longest_first_is_rename L :
+    NoDup L -> (forall q, In q L <-> In q (keys F) /\ has_ext e q = true) -> longest_first L ->
+    forall k, lookup k (move_in_order L F) = lookup k (rename_feat ty e F).
+  Proof.
+    intros ND D Srt k. rewrite (move_in_order_spec L [] F); auto.
+    - rewrite app_nil_r. apply spec_all. intros q. rewrite <- in_rev. apply D.
+    - intros p Hp. split; [apply D, Hp | intros []].
+    - intros p q _ [].
+  Qed.
+End Sequential.
